@@ -410,10 +410,19 @@ def syncEvents (V : Type) (n : Nat) : List (Event V) :=
 
 def strict32 : Nat := 4294967295
 
+/-- instance names of the harness workloads (some are proper prefixes of others) -/
+def harnessIds : List String := ["i1", "i10", "i1-0", "i2"]
+
+def idIndex (id : String) : Nat :=
+  let rec go : List String → Nat → Nat
+    | [], _ => 0
+    | x :: xs, i => if x = id then i else go xs (i + 1)
+  go harnessIds 0
+
 /-- the static content of instance `id` in the harness workloads -/
 def tokenPool (id : String) (clash : Bool) : List Nat :=
   if clash then [1, 2, 3, 4] else
-  let k := (id.toList.headD 'a').toNat - 'a'.toNat
+  let k := idIndex id
   [k * 10 + 1, k * 10 + 2, k * 10 + 3, strict32 - k]
 
 def maskTokens (pool : List Nat) (mask : Nat) : List Nat :=
@@ -433,7 +442,7 @@ inductive Op
 
 def applyRingOp (t0 : Int) (clash : Bool) (d : Desc) : Op → Desc
   | .hb id delta st mask =>
-    let k := (id.toList.headD 'a').toNat - 'a'.toNat
+    let k := idIndex id
     C03.upsert { id := id, addr := "addr-" ++ id, zone := "z" ++ toString (k % 2), ts := t0 - delta, state := st,
                  tokens := maskTokens (tokenPool id clash) mask } d
   | .rm id => d.filter (·.id ≠ id)
